@@ -602,6 +602,39 @@ pub fn c18_skip_cases() -> Vec<(String, Vec<String>)> {
 }
 
 /// generic enums: `type T = ..` and `lifetime = ..` items in every order
+/// type items that mention ANOTHER type parameter of the enum: whatever the answer is (the
+/// unchanged tree refuses them), it must not depend on which of the two items is written first.
+/// Compared by acceptance, and by output when accepted (diagnostics may name the items in the
+/// order they were written).
+pub fn c18_mutual_cases() -> Vec<(String, Vec<String>)> {
+    let mut cases = vec![];
+    for set in [vec!["type T = u32", "type U = Vec<T>"], vec!["type T = u32", "type U = Vec<T>", "extras = u8"], vec!["type U = (T, T)", "type T = &'s str", "skip \" \""], vec!["type T = Option<U>", "type U = Option<T>"]] {
+        let sources: Vec<String> = permutations(&set).into_iter().map(|p| format!("#[logos({})] enum Tok<'s, T, U> {{ #[regex(\"a+\", cb)] A(T), #[regex(\"b+\", cb)] B(U) }}", p.join(", "))).collect();
+        cases.push((format!("generic enum items referring to each other {set:?}"), sources));
+        let sources: Vec<String> = permutations(&set).into_iter().map(|p| format!("{} enum Tok<'s, T, U> {{ #[regex(\"a+\", cb)] A(T), #[regex(\"b+\", cb)] B(U) }}", p.iter().map(|i| format!("#[logos({i})]")).collect::<Vec<_>>().join(" "))).collect();
+        cases.push((format!("generic enum items referring to each other, one attribute each {set:?}"), sources));
+    }
+    cases
+}
+
+fn c18_eval_accept(desc: &str, sources: &[String]) -> (u64, u64, Vec<Violation>) {
+    let (canon, canon_acc) = gen_tokens(&sources[0]);
+    let mut v = vec![];
+    for (i, s) in sources.iter().enumerate().skip(1) {
+        let (t, acc) = gen_tokens(s);
+        if (acc != canon_acc || (acc && t != canon)) && v.len() < 3 {
+            v.push(viol(
+                "ORDER-SENSITIVE",
+                "c18",
+                format!("{desc} #{i}"),
+                format!("canonical order accepted={canon_acc}, this order accepted={acc}{}. canonical: {} | this: {}", if acc && canon_acc { "; outputs differ" } else { "" }, sources[0], s),
+                json!({"sources": [sources[0], s], "dup": true}),
+            ));
+        }
+    }
+    (sources.len() as u64, sources.len() as u64 - 1, v)
+}
+
 pub fn c18_generic_cases() -> Vec<(String, Vec<String>)> {
     let sets: Vec<Vec<&str>> = vec![
         vec!["type T = &'a str", "lifetime = 'a"],
@@ -718,7 +751,13 @@ pub fn c18(a: &Args) -> Report {
     cases.extend(c18_skip_cases());
     let n_equiv = cases.len();
     cases.extend(c18_dup_cases());
-    let outs: Vec<(u64, u64, Vec<Violation>)> = cases.par_iter().enumerate().map(|(i, (d, s))| if i < n_text { c18_eval(d, s) } else if i < n_equiv { c18_eval_equiv(d, s) } else { c18_eval_dup(d, s) }).collect();
+    let n_dup = cases.len();
+    cases.extend(c18_mutual_cases());
+    let outs: Vec<(u64, u64, Vec<Violation>)> = cases
+        .par_iter()
+        .enumerate()
+        .map(|(i, (d, s))| if i < n_text { c18_eval(d, s) } else if i < n_equiv { c18_eval_equiv(d, s) } else if i < n_dup { c18_eval_dup(d, s) } else { c18_eval_accept(d, s) })
+        .collect();
     for ((d, s), (n, nt, v)) in cases.iter().zip(outs) {
         rep.count("evaluations", n);
         rep.count("distinct_nontrivial", nt);
@@ -900,7 +939,7 @@ pub fn pattern_frags() -> Vec<Frag> {
         fr("(?-u:\\\\b)a", "start look-behind"), fr("^a", "start look-behind"), fr("(?m:^)a", "start look-behind"), fr("\\\\bx", "unsupported unicode word boundary"),
         fr("x\\\\b", "unsupported unicode word boundary"), fr("a(?=b)", "unsupported look-ahead group"), fr("(a)\\\\1", "unsupported back-reference"), fr("(a+)-\\\\1", "unsupported back-reference"), fr("a\\\\7", "unsupported back-reference"), fr("a\\\\0", "parse error"), fr("a\\\\8", "parse error"),
         fr(".*", "nullable"), fr("a.*", "greedy dot"), fr("(a.*)", "greedy dot"), fr("a.+", "greedy dot"), fr("a(.*b)?", "greedy dot"), fr("(a.+)+b", "greedy dot"),
-        fr("a[^\\\\n]*", "greedy dot"), fr("a(?s:.)*", "greedy dot"), fr("a(?:.*)b", "greedy dot"), fr("(?:a|b.*)c", "greedy dot"), fr("a(?:.*){2}", "greedy dot"), fr("a.{2,}", "greedy dot"), fr("[^\\\\n]{3,}b", "greedy dot"), fr("a(?s:.){2,}", "greedy dot"), fr("a(.{5,}b)?", "greedy dot"), fr("(.){1,}x", "greedy dot"), f("a.{2,}?b"), f("a.{2,9}"),
+        fr("a[^\\\\n]*", "greedy dot"), fr("a(?s:.)*", "greedy dot"), fr("a(?:.*)b", "greedy dot"), fr("(?:a|b.*)c", "greedy dot"), fr("a(?:.*){2}", "greedy dot"), fr("a.{2,}", "greedy dot"), fr("[^\\\\n]{3,}b", "greedy dot"), fr("a(?s:.){2,}", "greedy dot"), fr("a(.{5,}b)?", "greedy dot"), fr("(.){1,}x", "greedy dot"), fr("//[^\\r\\n]*", "greedy dot"), fr("#(?R).+", "greedy dot"), fr("a(?R:.)*b", "greedy dot"), fr("a(?sR:.)+", "greedy dot"), fr("a[^\\n\\r]{2,}", "greedy dot"), f("a.{2,}?b"), f("a.{2,9}"),
         f("a.*?b"), f("a.+?b"), f("a.{0,5}"), fr("(?&undef)", "undefined subpattern"), fr("a(?&undef)b", "undefined subpattern"), fr("[", "parse error"),
         fr("\\\\p{Nope}", "parse error"), fr("a{2,1}", "parse error"), fr("(?i", "parse error"), fr("\\\\q", "parse error"), fr("(?P<n>a)(?P<n>b)", "parse error"),
         f("(?x) a b # c"), f("[a&&b]x"), f("\\\\x{110000}"), f("a{1000}"),
@@ -1163,7 +1202,7 @@ pub fn replay(a: &Args, rec: &serde_json::Value) -> Report {
         "c18" => {
             let s: Vec<String> = serde_json::from_value(r["sources"].clone()).expect("sources");
             let differ = if r["dup"].as_bool() == Some(true) {
-                !c18_eval_dup("replay", &s).2.is_empty()
+                !c18_eval_accept("replay", &s).2.is_empty()
             } else if r["equiv"].as_bool() == Some(true) {
                 gen_equiv(&s[0]) != gen_equiv(&s[1])
             } else {
